@@ -374,12 +374,24 @@ class Gen:
             if twin:
                 self._no_labels = True
             first = len(self.lines)
+            in_ens = False
+            saw_ens = False
             for text, ln in sig_lines:
                 if twin:
                     text = re.sub(r'\bfn ' + re.escape(kv['name']) + r'\b', 'fn ' + kv['name'] + '__twin', text, count=1)
+                    st = text.strip()
+                    if re.match(r'^ensures\b', st):
+                        in_ens, saw_ens = True, True
+                        self.emit('        ensures false,', (kind, path, ln))
+                        continue
+                    if in_ens:
+                        if re.match(r'^(decreases|requires|recommends)\b', st):
+                            in_ens = False
+                        else:
+                            continue
                 self.feed(text, (kind, path, ln))
             self.close_label()
-            if twin:
+            if twin and not saw_ens:
                 self._insert_false_from(first)
             for t, o in body_lines:
                 if o[0] == 'repo':
